@@ -464,7 +464,8 @@ class GriffeLoader:
         seen = seen or set()
         seen.add(obj.path)
 
-        for member in obj.members.values():
+        # Loading external packages (below) can expand wildcards in this very object: iterate on a copy.
+        for member in list(obj.members.values()):
             # Handle aliases.
             if member.is_alias:
                 if member.wildcard or member.resolved:  # type: ignore[union-attr]
